@@ -273,3 +273,73 @@ PROPS["C08"] = {
     "outside": "objects a caller keeps after Get and mutates during a Run; user-supplied Go callables; more than two activities",
     "stubs": COMMON_STUBS,
 }
+
+PROPS["C17"] = {
+    "level": "model_checking",
+    "harness": ["C17_"],
+    "tiers": {
+        "quick": {"timeout": "20s", "maxsteps": 12000000, "casecap": 128, "bounds": "directive = '%' + 1..2 symbolic bytes within the documented directive alphabet (flags # 0 + - space, digits 1 2 3 9, . * [ ], all documented verbs) x 17 argument values of the five mapped types (boundary ints incl. MinInt64 and a non-BMP code point, special floats -0 NaN Inf 1e21 1e-7, non-UTF-8 string, bytes) with '*' widths in -2..2; totality on '%' + 1..3 arbitrary bytes with 0..2 arguments; 24 explicit-index/flag/width formats x 3 argument kinds", "cross": 2},
+        "thorough": {"timeout": "60s", "maxsteps": 12000000, "casecap": 128, "bounds": "directive of 1..3 symbolic bytes; rest as quick", "cross": 3},
+    },
+    "reach": {"C17_Directive": ["directive"], "C17_Total": ["total"], "C17_Indexed": ["indexed"]},
+    "assumptions": [
+        "both formatters are executed by the engine: tengo.Format and Go's real fmt.Sprintf (non-reflective paths for int64/float64/string/bool/[]byte; reflect.TypeOf(x).String() emulated for %T and bad-verb texts)",
+        "argument values are a boundary set (decimal and shortest-float rendering of symbolic numbers is outside the solver's reach); the directive bytes are symbolic",
+        "excluded by the property: %q on ints that are not code points, '#' with %x/%X on floats, rendering of surplus arguments",
+    ],
+    "outside": "directives longer than the bound; widths beyond 2 digits; floats outside the boundary set",
+    "stubs": COMMON_STUBS,
+}
+
+PROPS["C18"] = {
+    "level": "model_checking",
+    "harness": ["C18_"],
+    "tiers": {
+        "quick": {"timeout": "20s", "maxsteps": 12000000, "casecap": 128, "bounds": "decoder input: every byte string of length 1..4 (all 256 values per byte): no panic, fails iff encoding/json.Valid (executed by the engine) rejects it, scalar documents and one-element arrays compared with Go's strconv reading of the literal; round trip on values of depth <= 1: ints and floats from boundary sets, strings of 0..2 symbolic ASCII bytes (incl. control characters, quotes, backslash), bools, undefined, arrays/maps of 0..2 such values", "cross": 2},
+        "thorough": {"timeout": "60s", "maxsteps": 12000000, "casecap": 128, "bounds": "decoder input of length 1..5; round-trip strings of arbitrary bytes", "cross": 3},
+    },
+    "reach": {"C18_DecodeBytes": ["valid", "invalid"], "C18_RoundTrip": ["roundtrip"]},
+    "assumptions": [
+        "the reference for validity is Go's encoding/json.Valid (its scanner is executed by the engine); the reference for decoded values is strconv.ParseInt/ParseFloat of the literal text and the body of plain ASCII strings (encoding/json's value decoder is reflective and not executed)",
+        "ints in the round trip come from a boundary set (decimal rendering)",
+    ],
+    "outside": "documents longer than the bound; escapes and non-ASCII text in decoded string *values* (validity is still compared); json.indent/html_escape",
+    "stubs": COMMON_STUBS,
+}
+
+PROPS["C19"] = {
+    "level": "model_checking",
+    "harness": ["C19_"],
+    "tiers": {
+        "quick": {"timeout": "20s", "maxsteps": 12000000, "bounds": "all 47 text, 53 math, 10 base64/hex, 32 clock-independent times functions and the 11 enum functions; 25 math and 33 times constants. Right-typed arguments: strings of 0..1-3 symbolic bytes (the maximum is per function; 7-bit where the function walks Unicode tables) plus concrete non-ASCII samples, ints/floats symbolic where the wrapped Go function is arithmetic and from boundary sets where it renders or parses decimal text (itoa, format_*, parse_*, times), patterns from a fixed list of valid and invalid regular expressions, times as Unix seconds from a boundary set; wrong-typed: every other runtime type per position (13 type tags), every argument count 0..n+1; limits: MaxStringLen/MaxBytesLen symbolic in 0..8 for the size-limited functions", "cross": 2},
+        "thorough": {"timeout": "90s", "maxsteps": 20000000, "bounds": "as quick with strings of 0..3 symbolic bytes (any byte value) and longer boundary sets", "cross": 3},
+    },
+    "reach": {"C19_TextPred": ["text-pred"], "C19_TextXform": ["text-xform"], "C19_TextConv": ["text-conv"], "C19_TextRe": ["text-re"], "C19_TextArgs": ["text-args"], "C19_TextCoerce": ["text-coerce"],
+              "C19_Codec": ["codec"], "C19_CodecRoundTrip": ["codec-roundtrip"], "C19_CodecArgs": ["codec-args"], "C19_Limit": ["limit"], "C19_MathConst": ["math-const"], "C19_Math": ["math"], "C19_MathArgs": ["math-args"],
+              "C19_TimesConst": ["times-const"], "C19_Times": ["times"], "C19_TimesArgs": ["times-args"], "C19_Enum": ["enum"]},
+    "assumptions": [
+        "the expected tables (name -> Go function, coercion class per parameter, result wrapping) are written from docs/stdlib-*.md and the conversion table of docs/runtime-types.md, not from the implementation tables; the wrapped Go functions themselves (strings, strconv, regexp, math, encoding/*, time) are executed by the engine on the same symbolic arguments and trusted",
+        "parameters documented with a plain type name (not '(compatible)') must accept that type and reject types with no conversion to it; a type that merely converts may be converted or rejected",
+        "jn/yn orders, inf sign, time_month/time_day, sub and every function that renders numbers or times take arguments from boundary sets (decimal rendering / 64-bit division stall the solver)",
+        "math functions are compared bit-for-bit with the Go function executed by the engine's float intrinsics; NaN results compare equal as NaN",
+    ],
+    "outside": "clock functions (now, sleep, since, until; date/in_location with zone names other than UTC/Local need the environment); rand, os, fmt, json modules; the Name/Found fields of argument-type errors; strings longer than the bound; MaxStringLen on base64.encode/hex.encode (no limit rule stated by the property)",
+    "stubs": COMMON_STUBS,
+}
+
+PROPS["C20"] = {
+    "level": "model_checking",
+    "harness": ["C20_"],
+    "tiers": {
+        "quick": {"timeout": "20s", "maxsteps": 12000000, "bounds": "precedence: `a OP1 b OP2 c` with OP1 of 1..2 arbitrary bytes and OP2 over the 19 documented binary operators; 15 unary/ternary groupings; literals: 1..3 arbitrary bytes starting with a digit, '.', or a quote, compared with go/scanner + strconv (executed by the engine); semicolons: a line of 1..2 arbitrary bytes followed by newline / comment forms, compared with go/scanner; print/re-parse: 12 statement forms x expression trees of depth 1 over 12 leaves, 19 binary and 4 unary operators, ternary, parentheses", "cross": 2},
+        "thorough": {"timeout": "60s", "maxsteps": 12000000, "bounds": "precedence with both operators of 1..2 arbitrary bytes; literals of 1..4 bytes; lines of 1..3 bytes; print/re-parse with expression depth 2", "cross": 3},
+    },
+    "reach": {"C20_Precedence": ["left", "right"], "C20_UnaryTernary": ["unary"], "C20_Literals": ["literals"], "C20_PrintReparse": ["reparse"], "C20_Semicolons": ["semicolons"]},
+    "assumptions": [
+        "Go's own go/scanner and strconv are the reference for literals and semicolon insertion and are executed by the engine on the same symbolic bytes",
+        "print/re-parse is a finite case split (no wide variable); map keys and module names are plain identifiers as the property requires",
+        "float literal values are compared through strconv.ParseFloat on both sides (strconv trusted)",
+    ],
+    "outside": "longer operators/literals/lines; comments in every legal position (only end-of-line positions)",
+    "stubs": COMMON_STUBS,
+}
